@@ -15,7 +15,10 @@
 
 #include "rkcommon/math/rkmath.h"
 #include "rkcommon/math/vec.h"
+// the distribution keeps its generator private; fn 17 plants a chosen generator state (std headers are all included above)
+#define private public
 #include "rkcommon/utility/random.h"
+#undef private
 
 using namespace rkcommon;
 using namespace rkcommon::math;
@@ -25,6 +28,30 @@ static inline long long b_of(float f) {
   if (f != f) return 0x7FC00000ll;   // canonical NaN
   uint32_t b; std::memcpy(&b, &f, 4); return b;
 }
+
+// a pcg32 whose NEXT output is k: state with rotation field 0 solving ((s ^ (s >> 18)) >> 27) == k, loaded through
+// the engine's public stream extraction (multiplier, increment, state)
+static pcg32 pcg_with_next_output(uint32_t k) {
+  uint64_t s = 0;
+  for (int i = 58; i >= 27; i--) {
+    const uint64_t xi = (k >> (i - 27)) & 1u;
+    const uint64_t hi = (i + 18 <= 58) ? ((s >> (i + 18)) & 1u) : 0u;
+    s |= (xi ^ hi) << i;
+  }
+  std::ostringstream os;
+  os << "6364136223846793005 1 " << s;
+  std::istringstream is(os.str());
+  pcg32 g;
+  is >> g;
+  return g;
+}
+// generator stub for uniform_real_distribution: returns a chosen value, same min/max as pcg32
+struct StubGen {
+  uint32_t v;
+  static constexpr uint32_t min() { return 0u; }
+  static constexpr uint32_t max() { return 0xFFFFFFFFu; }
+  uint32_t operator()() { return v; }
+};
 
 int main() {
   std::string line;
@@ -64,6 +91,20 @@ int main() {
       case 13: {   // makeRandomColor(i): the channel whose modulus is a[1]
         vec3f c = utility::makeRandomColor((unsigned)a[0]);
         o << b_of(a[1] == 13 * 17 * 43 ? c.x : a[1] == 11 * 29 ? c.y : c.z);
+        break;
+      }
+      case 17: {   // pcg32_biased_float_distribution(lower, upper) with the generator's next output forced to a[2]
+        utility::pcg32_biased_float_distribution d(1, 1, f_of(a[0]), f_of(a[1]));
+        d.rng = pcg_with_next_output((uint32_t)a[2]);
+        pcg32 probe = d.rng;
+        if (probe() != (uint32_t)a[2]) { o << "STATEFAIL"; break; }
+        o << b_of(d());
+        break;
+      }
+      case 18: {   // uniform_real_distribution<float>(l,u) over a generator returning a[2]
+        StubGen g{(uint32_t)a[2]};
+        utility::uniform_real_distribution<float> u(f_of(a[0]), f_of(a[1]));
+        o << b_of(u(g));
         break;
       }
       case 14: o << b_of(linear_to_srgb(f_of(a[0]))); break;                       // oracle only (libm pow)
